@@ -446,6 +446,19 @@ def forms_program():
     )
     F.append(
         fn(
+            # thrown into while suspended, it catches and yields again with no binding in between
+            "genretry",
+            ["p"],
+            [
+                ["bind", "budget", V],
+                ["while", [["try", [["yield", var("budget"), None]], [["Exception", None, [["pt"]]]], [], []]]],
+                ["bind", "done", V],
+                ["ret", var("budget")],
+            ],
+        )
+    )
+    F.append(
+        fn(
             "shadow",
             ["p"],
             [
@@ -813,6 +826,16 @@ def genctx_program():
                 ["yieldfrom", ["call", "gen2", [V]]],
                 ["bind", "r", ["call", "g", [V]]],
                 ["yield", var("z"), None],
+            ],
+        ),
+        fn(
+            # catches what is thrown into it and yields again, binding nothing in between
+            "gen4",
+            ["p"],
+            [
+                ["bind", "x", V],
+                ["while", [["try", [["yield", var("x"), None]], [["Exception", None, [["pt"]]]], [], []]]],
+                ["bind", "r", ["call", "g", [V]]],
             ],
         ),
         # driver: an instrumented function that itself drives generators and calls g
